@@ -100,7 +100,27 @@ class EIntEnum(enum.IntEnum):
     y = -3
 
 
+class EBig(enum.Enum):
+    """int values at and beyond the 64-bit boundaries (the JSON decoder in use reads integers beyond 64 bits as floats)"""
+    max64 = 2 ** 63 - 1
+    min64 = -2 ** 63
+    umax = 2 ** 64 - 1
+    over = 2 ** 64
+    huge = 12345678901234567890123
+    under = -2 ** 63 - 1
+
+
+class EBigInt(enum.IntEnum):
+    umax = 2 ** 64 - 1
+    over = 2 ** 64
+    under = -2 ** 70
+
+
 ENUMS = [EInt, EStr, ESMix, EIntEnum]
+# the oracle also judges enums with int values at / beyond the 64-bit boundaries.  They are NOT given to the
+# model/implementation correspondence: the scalar model reads integer text exactly (Z) while the JSON decoder in use reads
+# integers beyond 64 bits as floats -- that difference IS the listed finding KF-C04-enum-int-beyond-64-bits.
+ENUMS_ORACLE = ENUMS + [EBig, EBigInt]
 CARRIERS = ["CStr", "CBytes", "CBytearray", "CMvBytes", "CMvBytearray"]
 HASHABLE = ["CStr", "CBytes", "CMvBytes"]
 
@@ -1340,8 +1360,13 @@ def check_text(kind: str, spec: dict, carriers=None, warm=True):
             got = e
         ok = (not isinstance(got, Exception)) and same_temporal(got, v) and type(got) is type(v)
         if not ok:
+            extra = {}
+            if kind == "enum" and type(v.value) is int and not (-2 ** 63 <= v.value < 2 ** 64) and float(v.value) != v.value:
+                # an int value beyond 64 bits that no float holds exactly: the JSON decoder in use (orjson) reads the
+                # text as a float, which is no member's value (KF-C04-enum-int-beyond-64-bits)
+                extra["int_beyond_64_inexact"] = True
             fails.append(_fail(f"unmarshal[{kind}]", "canonical text does not unmarshal back to the value", inp, got, v,
-                               carrier=c, text=text))
+                               carrier=c, text=text, **extra))
     return fails
 
 
@@ -1376,7 +1401,7 @@ def build_value(kind: str, spec):
         cls = getattr(pathlib, spec[0])
         return cls, cls(spec[1])
     if kind == "enum":
-        E = {e.__name__: e for e in ENUMS}[spec[0]]
+        E = {e.__name__: e for e in ENUMS_ORACLE}[spec[0]]
         return E, E[spec[1]]
     if kind == "date":
         return D.date, D.date(*spec)
@@ -1560,7 +1585,7 @@ def check_history(case: dict):
 
 GEN = {"int": gen_int, "float": gen_float, "decimal": gen_dec, "fraction": gen_frac, "uuid": gen_uuid, "path": gen_path,
        "date": gen_date, "datetime": gen_datetime, "time": gen_time, "timedelta": gen_td,
-       "enum": lambda rng: rng.choice(list(rng.choice(ENUMS)))}
+       "enum": lambda rng: rng.choice(list(rng.choice(ENUMS_ORACLE)))}
 
 
 def corpus(layer=None):
